@@ -114,6 +114,9 @@ static void judge(const World &w, Avoid::Router *live, const vector<Avoid::ConnR
         double ci = cost(ri, ortho), cf = cost(rf, ortho);
         if (ci > cf + 1e-6) ctx.violation("costlier_than_fresh", epOnRoutingBorder ? vector<string>{"routing_polygon_chord_or_vertex"} : vector<string>{}, desc, mcx::fmt("incremental cost %.9g fresh %.9g; ", ci, cf) + obs);
         if (fabs(ci - cf) > 1e-6) ctx.count("differs_from_fresh");
+        // (ii') polyline, no buffer: the exact Euclidean shortest path over the visibility graph of the final scene (the C04 oracle) -- independent of the fresh router
+        if (!ortho && !g_buf && ck.a0 < 0) { vector<Poly> sc; for (auto &sh : w.shapes) if (sh.alive) sc.push_back(rect(sh.x0, sh.y0, sh.x1, sh.y1)); VisGraph vg(sc, P{ck.x0, ck.y0}, P{ck.x1, ck.y1}); double ex = vg.shortest(0, false) * S;
+            ctx.count("exact_shortest_path_checks"); if (ex < 1e17 && ci > ex + 1e-6 && !(ci > cf + 1e-6)) ctx.violation("longer_than_shortest_path", {}, desc, mcx::fmt("incremental cost %.9g exact shortest %.9g fresh %.9g; ", ci, ex, cf) + obs); }
     }
     delete f;
     // (iii) a transaction that changes nothing leaves every route unchanged
@@ -280,7 +283,7 @@ int main(int argc, char **argv) {
     for (int ortho = 0; ortho < 2; ortho++) { phase(2, 1, 1, ortho, true, 1, 1); phase(2, 1, 2, ortho, true, 1, 1); phase(2, 1, 2, ortho, false, 1, 2); phase(2, 1, 2, ortho, true, 2, 2); phase(3, 2, 1, ortho, true, 1, 2); }
     for (int ortho = 0; ortho < 2; ortho++) { phase(2, 1, 1, ortho, true, 1, 1, true); phase(2, 1, 2, ortho, true, 2, 1, true); phase(2, 1, 2, ortho, true, 1, 2, true); }
     g_pins = false;
-    for (int b : {2, 1}) { g_buf = b; phase(2, 1, 1, false, true, 1, 1); phase(2, 1, 2, false, true, 1, 1); phase(2, 1, 3, false, true, 1, 2); } g_buf = 0;
+    for (int b : {2, 1}) { g_buf = b; phase(2, 1, 1, false, true, 1, 1); phase(2, 1, 2, false, true, 1, 1); if (T) phase(2, 1, 3, false, true, 1, 2); } g_buf = 0;
     grid_phase(3, false, 0); grid_phase(3, false, 1); grid_phase(3, false, 100); grid_phase(3, true, 0); grid_phase(3, false, 200); bar_block_phase(5, 3); inside_phase(7, true);
     if (T) { inside_phase(7, false); inside_phase(8, true); bar_block_phase(5, 1); bar_block_phase(6, 2); grid_phase(3, false, 201); grid_phase(4, false, 200); grid_phase(3, false, 101); grid_phase(3, true, 100); for (int e = 0; e < 6; e++) { grid_phase(4, false, e); grid_phase(3, true, e); } grid_phase(4, true, 0); grid_phase(4, true, 2); }
     if (T) for (int ortho = 0; ortho < 2; ortho++) { phase(2, 1, 2, ortho, false, 1, 1, true); phase(2, 1, 3, ortho, true, 3, 2, true); phase(3, 2, 2, ortho, true, 2, 2, true); }
